@@ -15,6 +15,7 @@ class Model(object):
         self.rels = set()
         self.optional = set()      # relation rows the statement neither demands nor forbids
         self.counters = {}
+        self.dups = {}             # key requested by the id spec -> keys of the features filed under '<key>_n' because of it
         self.ever = set()          # every key ever stored (freshness monitor)
 
     def clone(self):
@@ -52,9 +53,24 @@ class Model(object):
             elif strategy == "replace":
                 self.insert(key, rec)
             elif strategy == "merge":
-                old = self.feats[key]
-                if old["cols"] != rec["cols"]:
-                    raise NotImplementedError("the C10 workload only merges features whose columns agree")
+                # candidates: the feature under the key and the features filed under '<key>_n' because of this key
+                cands = [key] + [d for d in self.dups.get(key, []) if d in self.feats]
+                agree = [c for c in cands if self.feats[c]["cols"] == rec["cols"]]
+                if len(agree) > 1:
+                    raise NotImplementedError("two candidates agree with the newcomer (not generated)")
+                if not agree:
+                    stored = self.auto(key)
+                    auto = True
+                    self.insert(stored, rec)
+                    self.dups.setdefault(key, []).append(stored)
+                    for k, v in rec["attrs"]:
+                        if k == "Parent":
+                            for p in v:
+                                self.rels.add((p, stored, 1))
+                    out.append((stored, auto))
+                    continue
+                stored = agree[0]
+                old = self.feats[stored]
                 merged = []
                 seen = {}
                 for k, v in rec["attrs"] + old["attrs"]:
@@ -100,8 +116,20 @@ class Model(object):
             self.rels = set(r for r in self.rels if r[0] != i and r[1] != i)
             self.optional = set(r for r in self.optional if r[0] != i and r[1] != i)
 
-    def add_relation(self, parent, child, level):
+    def add_relation(self, parent, child, level, parent_edit=None, child_edit=None):
+        """parent_edit/child_edit: {"cols": {...}, "attrs": [[k, [v]], ...]} written back by the caller's hook functions."""
         self.rels.add((parent, child, level))
+        for key, edit in ((parent, parent_edit), (child, child_edit)):
+            if edit:
+                f = self.feats[key]
+                f["cols"].update(edit.get("cols", {}))
+                for k, v in edit.get("attrs", []):
+                    for kv in f["attrs"]:
+                        if kv[0] == k:
+                            kv[1] = list(v)
+                            break
+                    else:
+                        f["attrs"].append([k, list(v)])
 
     # -- comparison -----------------------------------------------------------
     def compare(self, dump):
